@@ -88,3 +88,65 @@ package transaction
 //@   ensures[C03,C17] tx.storage.batches == old(tx.storage.batches) && lockstate(tx.rwLock) == old(lockstate(tx.rwLock))
 //@   ensures[C17] !old(tx.active) ==> err == ErrTransactionClosed && tx.storage.reads == old(tx.storage.reads)
 //@   check[C04] before call StorageBackend.Get#1: lockstate(tx.rwLock) >= 1 && tx.active
+
+// ---- Transaction and Registry as seen by the network service (call-history ghosts, see package interfaces)
+//@ ghost field (Transaction) puts int
+//@ ghost field (Transaction) dels int
+//@ ghost field (Transaction) gets int
+//@ ghost field (Transaction) commits int
+//@ ghost field (Transaction) rollbacks int
+//@ ghost field (Transaction) finished bool
+//@ ghost field (Transaction) ro bool
+//@ ghost field (Transaction) lastKey bstr
+//@ ghost field (Transaction) lastVal bstr
+//@ func Transaction.Put
+//@   havocs self.puts, self.lastKey, self.lastVal
+//@   ensures self.puts == old(self.puts) + 1 && self.lastKey == bstr(key) && self.lastVal == bstr(value)
+//@ func Transaction.Delete
+//@   havocs self.dels, self.lastKey
+//@   ensures self.dels == old(self.dels) + 1 && self.lastKey == bstr(key)
+//@ func Transaction.Get
+//@   havocs self.gets, self.lastKey
+//@   ensures self.gets == old(self.gets) + 1 && self.lastKey == bstr(key)
+//@ func Transaction.Commit
+//@   havocs self.commits, self.finished
+//@   ensures self.commits == old(self.commits) + 1 && self.finished
+//@ func Transaction.Rollback
+//@   havocs self.rollbacks, self.finished
+//@   ensures self.rollbacks == old(self.rollbacks) + 1 && self.finished
+//@ func Transaction.IsReadOnly
+//@   ensures result == self.ro
+
+// Remove requires the transaction to be finished (committed or rolled back): removing an active transaction
+// makes its lock holder unreachable for every cleanup path.  okToRemove is set by the caller's ghost step
+// from the `finished` history of the transaction it is about to remove, and consumed by Remove.
+//@ ghost field (Registry) okToRemove bool
+//@ ghost field (Registry) removes int
+//@ func Registry.Remove
+//@   requires[C17] self.okToRemove
+//@   havocs self.okToRemove, self.removes
+//@   ensures !self.okToRemove && self.removes == old(self.removes) + 1
+//@ func Registry.Get
+//@   ensures !result1 ==> result0 == nil
+//@   ensures result1 ==> result0 != nil
+//@ func Transaction.NewIterator
+//@   ensures result != nil
+//@ func Transaction.NewRangeIterator
+//@   ensures result != nil
+
+// ---- C03: the buffer captures keys and values at call time (fresh copies, equal content, nil-ness kept),
+// the last operation on a key wins, other keys are untouched.
+//@ func (*Buffer).Put
+//@   requires b != nil && b.operations != nil && lockstate(b.mu) == 0
+//@   ensures[C03] b.operations[bstr(key)] != nil && !b.operations[bstr(key)].IsDelete
+//@   ensures[C03] bstr(b.operations[bstr(key)].Key) == bstr(key) && bstr(b.operations[bstr(key)].Value) == bstr(value) && (b.operations[bstr(key)].Value == nil) == (value == nil)
+//@   ensures[C03] (len(key) > 0 ==> fresh(b.operations[bstr(key)].Key)) && (len(value) > 0 ==> fresh(b.operations[bstr(key)].Value))
+//@   ensures[C03] forall k bstr :: k != bstr(key) ==> b.operations[k] == old(b.operations[k])
+//@ func (*Buffer).Delete
+//@   requires b != nil && b.operations != nil && lockstate(b.mu) == 0
+//@   ensures[C03] b.operations[bstr(key)] != nil && b.operations[bstr(key)].IsDelete && b.operations[bstr(key)].Value == nil
+//@   ensures[C03] bstr(b.operations[bstr(key)].Key) == bstr(key) && (len(key) > 0 ==> fresh(b.operations[bstr(key)].Key))
+//@   ensures[C03] forall k bstr :: k != bstr(key) ==> b.operations[k] == old(b.operations[k])
+//@ func (*Buffer).Clear
+//@   requires b != nil && lockstate(b.mu) == 0
+//@   ensures[C03] len(b.operations) == 0
